@@ -761,6 +761,23 @@ def c13_build(ctx):
     # larger generated masters, consistent and not
     for i in range(ctx.n(600, 6000)):
         cases.append(mk("master", G.gen_master(rng, features=ctx.features, consistent=(i % 2 == 0))[0], group="generated"))
+    # ids that differ in letter case / a blank only are different ids (group ids, DATA-ID, LANGUAGE are compared as written)
+    for lid in (["g1", "G1"], ["g1", "g1 "], ["g1", " g1"]):
+        for _ in range(ctx.n(400, 8000)):
+            allr = [(t, g) for t in MT for g in lid]
+            media = [r for r in allr if rng.random() < 0.4]
+            vs = []
+            for _ in range(rng.randint(1, 2)):
+                pick = lambda: rng.choice([None, None] + lid)
+                vs.append({"audio": pick(), "video": pick(), "subs": pick(), "cc": pick()})
+            if rng.random() < 0.5:
+                vs.append({"iframe": True, "video": rng.choice([None] + lid)})
+            cfg = {"media": media, "variants": vs, "sd": [], "order": "shuffle"}
+            cases.append(mk("master", c13_render(rng, cfg), group="look-alike-ids", meta={"cfg": cfg}))
+    sdl = [(i, l) for i in ("a", "A", "a ") for l in (None, "en", "EN")]
+    for pair in itertools.product(sdl, repeat=2):
+        cfg = {"media": [], "variants": [], "sd": list(pair)}
+        cases.append(mk("master", c13_render(rng, cfg), group="look-alike-ids", meta={"cfg": cfg}))
     # "the same rule decides builder success": the configurations above through MasterPlaylistBuilder, every list setter either
     # called with its items, called with an empty list, or not called at all
     def script_of(cfg, unset):
@@ -977,9 +994,11 @@ def dress_media(rng, text, avoid=()):
 # ------------------------------------------------------------------------------------------
 # C06
 
-C06_FMT = [None, "identity", "f2", "com.apple.streamingkeydelivery"]
-C06_FMT_ID = ["identity", "identity", "other:f2", "kfF"]
+C06_FMT = [None, "identity", "f2", "com.apple.streamingkeydelivery", "F2", "Identity"]
+C06_FMT_ID = ["identity", "identity", "other:f2", "kfF", "other:F2", "other:Identity"]
 C06_ALPHA = [("K", f, u) for f in range(4) for u in ("a", "b")] + [("N",), ("M",), ("S",)]
+# formats and URIs that differ in letter case only are different formats / keys (the KEYFORMAT string is compared as written)
+C06_ALPHA_LOOK = [("K", f, u) for f in (1, 2, 4, 5) for u in ("a", "A")] + [("N",), ("M",), ("S",)]
 
 
 def c06_render(seq):
@@ -1047,6 +1066,14 @@ def c06_build(ctx):
             cases.append(mk("media", dress_media(rng, c06_render(seq), avoid=("key", "keyiv", "map")), group="random-long-dressed", meta={"seq": seq}))
     for _ in range(ctx.n(500, 5000)):
         cases.append(mk("media", G.gen_media(rng, key_weight=0.6, features=ctx.features)[0], group="generated"))
+    for n in range(1, 4):
+        for seq in itertools.product(C06_ALPHA_LOOK, repeat=n):
+            if seq[-1] == ("S",):
+                cases.append(mk("media", c06_render(seq), group="look-alike-formats<=3", meta={"seq": seq}))
+    for _ in range(ctx.n(600, 12000)):
+        n = rng.randint(4, 30)
+        seq = tuple(rng.choice(C06_ALPHA_LOOK) if rng.random() < 0.7 else ("S",) for _ in range(n)) + (("S",),)
+        cases.append(mk("media", c06_render(seq), group="look-alike-formats-long", meta={"seq": seq}))
     return cases
 
 
@@ -3057,7 +3084,7 @@ def c20_script(rng, c, mode):
     else:
         segcalls = ["push " + c20_seg_script(s) for s in c["segs"]]
         if not c["segs"]:
-            segcalls = ["segs"]
+            segcalls = ["segs"]          # `segments` is a required field of the builder: an empty playlist is `segments(vec![])`
     # any interleaving of the setter calls with the (ordered) segment calls
     rng.shuffle(calls)
     out, i, j = [], 0, 0
